@@ -408,6 +408,25 @@ def u_csv_cells(E):
     E.prove_value_eq('csv-cell/text-cell-accepted-as-number', s2, s, 'P', 'lemma')
 
 
+@unit('csv-cell-date-round-trip/lemma', props=['C20'], functions=[Q + '_pytype_to_string', Q + '_get_date_from_string'])
+def u_csv_date_cell(E):
+    """a date-time cell in ISO form, as the extraction writes it (str(datetime)): parsed by _get_date_from_string (dateutil's
+    parse(text), assumed: parse(str(dt)) = dt for second-precision date-times) and rendered in the field's format it is the
+    same field text as the date-time itself gives -- so the cell comes back as it was written"""
+    from pyvc import models_iso as MI
+    dt = z3.Const('cell_dt', MI.DT)
+    v = VOpaque('datetime', dt)
+    cell = MI.str_of_datetime(E, v)                     # what csv writes for the decoded value
+    cfg = cfg_dict(E, 'FIXED', 12, ptype='datetime', datefmt='%y%m%d%H%M%S')
+    direct = E.call(Q + '_pytype_to_string', v, cfg)
+    try:
+        via_text = E.call(Q + '_pytype_to_string', cell, cfg)
+    except PyRaise as pr:
+        E.prove('csv-cell/iso-date-cell-accepted(%s)' % E.exc_name(pr.exc), False, 'P', 'lemma')
+        return
+    E.prove_value_eq('csv-cell/iso-date-cell-gives-the-same-field-text-as-the-date-itself', via_text, direct, 'P', 'lemma')
+
+
 # ---------------------------------------------------------------- C07: the tools stop with a diagnostic, not a traceback
 def stub_failing_reader(E, msgs, fail_after):
     """IpmReader that delivers `fail_after` records and then raises the library's data error for record fail_after+1"""
